@@ -5,6 +5,10 @@ Lean: Model/XPathApi.lean (setItem/storeAt), Props/C02.lean
 B stream : xp.set on existing node paths in every spelling (stepwise along write histories)
 C evaluator: write histories on the implementation vs a plain nested dict/list reference that
   applied the same writes by ordinary indexing; d[xpath] is v after each write.
+  Hidden lists: lookup reads a single value (a scalar or a dict, under a key or as an element of a list) as the list
+  of this one item - d['a[0]'], d['a[-1]'], d['a[last()]'] ARE d['a'].  The only reading of C02 consistent with that
+  is that these spellings address the existing node itself: the assignment replaces exactly that slot
+  (evaluator hidden_list, and hidden spellings inside the histories).
 """
 import copy
 
@@ -21,35 +25,57 @@ MANIFEST = dict(
          "getAt_setAt_disjoint), and a whole history of such writes equals the same fold of setAt (C02_history); unbounded in "
          "tree size and history length. The model of __setitem__ is compared with the real code step by step along random "
          "write histories in every spelling; the statement (tree equals a plain dict/list reference, identity of the stored "
-         "value) is executed on the implementation.",
+         "value) is executed on the implementation. Hidden lists (fix C03-e): lookup reads a node that is not a list as the "
+         "list of this one item, so name[0] / name[-1] / name[last()] (any spelling of 0 or -1) address the existing node "
+         "itself; C02_set_hidden_list proves, unbounded, that such an assignment on the single value of a key replaces "
+         "exactly that slot (the former finding C02-a, where the write went into a temporary list: C02_set_hidden_list_ok; "
+         "a single value that is an element of a list and indexes written as steps of their own are instances + "
+         "differential); the histories and the evaluator hidden_list write through these spellings, also on nodes in the "
+         "middle of the path.",
     note="values written are fresh objects (the harness deep-copies); aliasing one object at two positions is outside the model.",
     design_ref="5/C02",
 )
 
 VALUES = ["V", 5, None, {"z": 1}, [1, 2], "", True, {"n": {"m": []}}, 0.5, {}, []]
+# index spellings that address a single (non-list) value itself: the hidden-list convention of lookup
+HIDDEN = ["[0]", "[-1]", "[last()]", "/[0]", "[0][-1]", "[ -1 ]", "[0][0]", "[last()][0]"]
+
+
+def hidden_ok(ref, p):
+    """`p` is a node that is not a list: index 0 / -1 / last() on it is the node itself"""
+    return bool(p) and X.valid_pos(ref, p) and not isinstance(X.get_at(ref, p), list)
+
+
+def hid_valid(ref, p, hid):
+    """every node of the path after which a hidden index was written is (still) not a list"""
+    return all(X.valid_pos(ref, p[:k]) and not isinstance(X.get_at(ref, p[:k]), list) for k in hid)
 
 
 def gen_history(rng, tree, nops):
     """list of (pos, xp, value) writes; positions are evaluated in the current reference state.
     Biased towards what a per-path cache would get wrong: the same xpath written again, and an
-    ancestor replaced (through another spelling of the same node) by a copy of itself in between."""
+    ancestor replaced (through another spelling of the same node) by a copy of itself in between.
+    Hidden lists: nodes on the path that are not lists may be followed by an index that addresses the node itself
+    (`hid`: the prefix lengths; `hidden`: also the written node)."""
     ref = copy.deepcopy(tree)
     ops = []
-    prev = []  # (pos, xp) of earlier writes
+    prev = []  # (pos, xp, hid) of earlier writes
     for _ in range(nops):
         poss = [p for p, _ in X.positions(ref) if p]
         if not poss:
             break
         r = rng.random()
         done = False
+        hid = []
         if prev and r < 0.25:
-            p, xp = rng.choice(prev)
+            p, xp, hid = rng.choice(prev)
             # only spellings whose meaning does not depend on the current list lengths can be repeated verbatim
-            if X.valid_pos(ref, p) and "last()" not in xp and "-" not in xp:
+            # (a hidden index addresses the node only while the node is not a list)
+            if X.valid_pos(ref, p) and "last()" not in xp and "-" not in xp and hid_valid(ref, p, hid):
                 v = copy.deepcopy(rng.choice(VALUES))
                 done = True
         elif prev and r < 0.5:
-            p0, _ = rng.choice(prev)
+            p0 = rng.choice(prev)[0]
             if len(p0) > 1:
                 p = tuple(p0[: rng.randrange(1, len(p0))])
                 try:
@@ -60,16 +86,26 @@ def gen_history(rng, tree, nops):
                             for kk in v:
                                 if not isinstance(v[kk], (dict, list)):
                                     v[kk] = 0
+                        hid = []
                         xp = X.render(rng, ref, p)
                         done = True
                 except Exception:
                     done = False
         if not done:
             p = rng.choice(poss)
-            xp = X.render(rng, ref, p)
+            hid = []
+            xp = X.render(rng, ref, p, hidden=0.06, hidden_at=hid)
             v = copy.deepcopy(rng.choice(VALUES))
+            if hidden_ok(ref, p) and rng.random() < 0.1:
+                xp += rng.choice(HIDDEN)
+                if len(p) not in hid:
+                    hid.append(len(p))
         ops.append({"pos": list(p), "xp": xp, "v": v})
-        prev.append((tuple(p), xp))
+        if hid:
+            ops[-1]["hid"] = list(hid)
+            if len(p) in hid:
+                ops[-1]["hidden"] = True
+        prev.append((tuple(p), xp, list(hid)))
         par = X.get_at(ref, p[:-1])
         par[p[-1]] = copy.deepcopy(v)
     return ops
@@ -108,10 +144,28 @@ def check_history(c):
         par[op["pos"][-1]] = copy.deepcopy(op["v"])
         if o != ref or enc_val_plain(o) != enc_val_plain(ref):
             return {"step": k, "xp": op["xp"], "tree": repr(o)[:300], "reference": repr(ref)[:300]}
+        if op.get("hidden") and isinstance(v, list):
+            # the node is a list now: the same text addresses an element of it; the stored object is checked in place
+            if X.get_at(o, op["pos"]) is not v:
+                return {"step": k, "xp": op["xp"], "stored_elsewhere": True}
+            continue
         got = core.call(lambda: o[op["xp"]])
         if got[0] != "ok" or got[1] is not v:
             return {"step": k, "xp": op["xp"], "readback": repr(got)[:200]}
     return None
+
+
+def in_known(c, detail):
+    """C02-a (a write through index 0 / -1 / last() on a single value went into a temporary list and was lost) is
+    repaired by fix C03-e; the class counts only while known_findings/C02.json lists it as open"""
+    if "ops" in c and isinstance(detail, dict) and isinstance(detail.get("step"), int) and c["ops"][detail["step"]].get("hid") \
+            and "C02-a" in {f["id"] for f in core.load_known("C02")[0]}:
+        return "C02-a"
+    return None
+
+
+def witness_fails(f):
+    return check_history(f["witness"]) is not None
 
 
 def enc_val_plain(t):
@@ -127,19 +181,26 @@ def shrink_failure(evaluator, case):
     if "writes" in case:
         return case
 
+    # a path text and the record of its hidden indexes stay together (and unchanged)
+    texts = {(op.get("xp"), tuple(op.get("hid", [])), bool(op.get("hidden"))) for op in case.get("ops", [])}
+
     def ok(c):
         if not (isinstance(c.get("tree"), dict) and c.get("mode") in ("n0", "wrap") and isinstance(c.get("ops"), list)):
+            return False
+        if not all((op.get("xp"), tuple(op.get("hid", [])), bool(op.get("hidden"))) in texts for op in c["ops"]):
             return False
         # positions must exist in the evolving reference
         ref = copy.deepcopy(c["tree"])
         for op in c["ops"]:
             try:
                 par = X.get_at(ref, op["pos"][:-1])
-                par[op["pos"][-1]]
+                if not hid_valid(ref, op["pos"], op.get("hid", [])) or (op.get("hidden") and len(op["pos"]) not in op.get("hid", [len(op["pos"])])):
+                    return False        # a hidden index addresses the node only while the node is not a list
                 par[op["pos"][-1]] = copy.deepcopy(op["v"])
             except Exception:
                 return False
-        return check_history(c) is not None
+        bad = check_history(c)
+        return bad is not None and not in_known(c, bad)
 
     return core.shrink(case, ok, budget=300)
 
@@ -183,7 +244,21 @@ def run(ctx):
     for _ in range(ctx.budget(400, 10000)):
         t = X.gen_plain(rng, rng.choice([2, 3, 4]), "d")
         cases.append({"tree": t, "mode": rng.choice(["n0", "wrap"]), "ops": gen_history(rng, t, rng.randrange(1, 9))})
-    ctx.evaluate("history", cases, check_history, nontrivial=lambda c: len(c["ops"]) > 1)
+    ctx.evaluate("history", cases, check_history, in_known=in_known, nontrivial=lambda c: len(c["ops"]) > 1)
+    # hidden lists: one write through index 0 / -1 / last() on a single value (under a key or an element of a list)
+    rng3 = ctx.rng("hidden")
+    hcases = []
+    for _ in range(ctx.budget(300, 8000)):
+        t = X.gen_plain(rng3, rng3.choice([2, 3]), "d")
+        singles = [p for p, v in X.positions(t) if p and not isinstance(v, list)]
+        if not singles:
+            continue
+        p = rng3.choice(singles)
+        xp = X.render(rng3, t, p) + rng3.choice(HIDDEN)
+        hcases.append({"tree": t, "mode": rng3.choice(["n0", "wrap"]),
+                       "ops": [{"pos": list(p), "xp": xp, "v": copy.deepcopy(rng3.choice(VALUES)), "hidden": True, "hid": [len(p)]}]})
+    ctx.evaluate("hidden_list", hcases, check_history, in_known=in_known,
+                 nontrivial=lambda c: isinstance(c["ops"][0]["pos"][-1], int) or isinstance(X.get_at(c["tree"], c["ops"][0]["pos"]), dict))
     rk = []
     rng2 = ctx.rng("rootkeys")
     for _ in range(ctx.budget(300, 5000)):
@@ -202,11 +277,14 @@ def run(ctx):
                 if "/" in xp or "[" in xp:
                     for v in ("V", {"z": []}):
                         ex.append({"tree": t, "mode": "n0", "ops": [{"pos": list(p), "xp": xp, "v": v}]})
-    ctx.evaluate("history/exhaustive", ex, check_history)
+                if not isinstance(X.get_at(t, p), list):
+                    for sfx in ("[0]", "[-1]"):
+                        ex.append({"tree": t, "mode": "n0", "ops": [{"pos": list(p), "xp": xp + sfx, "v": "V", "hidden": True, "hid": [len(p)]}]})
+    ctx.evaluate("history/exhaustive", ex, check_history, in_known=in_known)
     ctx.extra["exhaustive_subspace"] = "all dict-rooted trees with <= %d nodes below the root, every position addressed through an xpath, one write" % nmax
     # B: each step of each history, model vs implementation, starting from the implementation's state
     steps = []
-    for c in cases:
+    for c in cases + hcases:
         o = X.convert(c["tree"], c["mode"])
         for op in c["ops"]:
             steps.append({"tree_enc": enc_val(o), "xp": op["xp"], "v": op["v"]})
@@ -224,4 +302,5 @@ def run(ctx):
     ctx.extra["assumptions"] = [
         "trees have plain-name keys; written values are fresh (deep-copied) objects",
         "every write addresses a node that exists in the current state (evaluated on a plain reference)",
+        "index 0 / -1 / last() on a node that is not a list addresses the node itself (the hidden-list convention of lookup)",
     ]
